@@ -56,15 +56,32 @@ def sib_tests(ctx, obs, rule='SIB'):
     prog = ctx.prog
     fa = prog.func(U + 'all_tests')
     all_arms = _arms(fa)
-    wrappers = {'pair_tests': 'p_pairwise', 'zero_tests': 'p_zero', 'nc_tests': 'p_noise'}
-    for w, outvar in wrappers.items():
+    ra = ctx.dep.result(U + 'all_tests')
+    all_out = None
+    for node, _, _ in ra.returns:
+        if node is not None and isinstance(node.value, ast.Tuple) and len(node.value.elts) == 3 \
+                and all(isinstance(e, ast.Name) for e in node.value.elts):
+            all_out = [e.id for e in node.value.elts]
+    if all_out is None:
+        obs.unk(rule, U + 'all_tests', 'returns (pairwise, zero, noise-ceiling) p-values', 'return is not a 3-tuple of names')
+        return
+    wrappers = {'pair_tests': 0, 'zero_tests': 1, 'nc_tests': 2}
+    for w, pos in wrappers.items():
         fw = prog.func(U + w)
+        rw = ctx.dep.result(U + w)
+        outvar = None
+        for node, _, _ in rw.returns:
+            if node is not None and isinstance(node.value, ast.Name):
+                outvar = node.value.id
+        if outvar is None:
+            obs.unk(rule, U + w, f'{w} returns a named p-value array', 'return is not a plain name')
+            continue
         arms = _arms(fw)
         obs.check(set(arms) == set(all_arms), 'TAB', U + w, f'{w} handles the same test types as all_tests',
                   f'{sorted(arms)} vs {sorted(all_arms)}', '', where(prog, fw, fw.node))
         for t in sorted(set(arms) & set(all_arms)):
             # the statement(s) defining outvar in all_tests' arm vs the wrapper's arm
-            ea = _def_in_arm(all_arms[t], outvar)
+            ea = _def_in_arm(all_arms[t], all_out[pos])
             ew = _def_in_arm(arms[t], outvar)
             same = ea is not None and ew is not None and ast.dump(ea) == ast.dump(ew)
             obs.check(same, rule, U + w, f'{t}: {outvar} is computed as in all_tests',
@@ -101,7 +118,20 @@ def _def_in_arm(arm: ast.If, var):
                 defs[n.targets[0].id] = n.value
     if var not in defs:
         return None
-    return defs[var]
+    import copy
+
+    class _Sub(ast.NodeTransformer):
+        def __init__(self):
+            self.depth = 0
+
+        def visit_Name(self, n):
+            if isinstance(n.ctx, ast.Load) and n.id in defs and n.id != var and self.depth < 6:
+                self.depth += 1
+                out = self.visit(copy.deepcopy(defs[n.id]))
+                self.depth -= 1
+                return out
+            return n
+    return _Sub().visit(copy.deepcopy(defs[var]))
 
 
 def result_fwd(ctx, obs, rule='FWD'):
@@ -205,13 +235,13 @@ def uniform(ctx, obs, rule='UNIFORM'):
     for n in ast.walk(f.node):
         if isinstance(n, ast.If) and isinstance(n.test, ast.Name) and n.test.id == 'nc_included':
             for s in n.body:
-                if isinstance(s, ast.Assign) and isinstance(s.targets[0], ast.Name) and s.targets[0].id == 'C':
+                if isinstance(s, ast.Assign) and isinstance(s.value, ast.Call) and _leaf(s.value.func) == 'pairwise_contrast':
                     ok = any(isinstance(x, ast.BinOp) and isinstance(x.op, ast.Sub) and isinstance(x.right, ast.Constant)
                              and x.right.value == 2 for x in ast.walk(s.value))
                     obs.check(ok, rule, q, 'with ceilings included the contrast matrix spans n - 2 models',
                               f'`{norm(s)[:80]}`', '', where(prog, f, s))
             for s in n.orelse:
-                if isinstance(s, ast.Assign) and isinstance(s.targets[0], ast.Name) and s.targets[0].id == 'C':
+                if isinstance(s, ast.Assign) and isinstance(s.value, ast.Call) and _leaf(s.value.func) == 'pairwise_contrast':
                     ok = not any(isinstance(x, ast.BinOp) and isinstance(x.op, ast.Sub) for x in ast.walk(s.value))
                     obs.check(ok, rule, q, 'without ceilings the contrast matrix spans all rows', f'`{norm(s)[:80]}`', '',
                               where(prog, f, s))
@@ -234,15 +264,21 @@ def clamp(ctx, obs, rule='CLAMP'):
     top = [n for n in f.node.body if isinstance(n, ast.If)]
     if not top:
         raise AnalysisError('_dual_bootstrap: no top-level if')
+    rets = [n for n in ast.walk(f.node) if isinstance(n, ast.Return) and isinstance(n.value, ast.Name)]
+    if not rets:
+        obs.unk(rule, q, 'clamping chain', 'return is not a plain name')
+        return
+    resv = rets[-1].value.id
+    arrv = f.pos_params[0]
     for arm_name, body in (('uncorrected', top[0].body), ('corrected', top[0].orelse)):
         assigns = [s for s in body if isinstance(s, ast.Assign) and isinstance(s.targets[0], ast.Name)
-                   and s.targets[0].id == 'variance']
+                   and s.targets[0].id == resv]
         if not assigns:
             obs.unk(rule, q, f'{arm_name}: clamping chain', 'no assignments to `variance`')
             continue
         last = assigns[-1].value
         ok_min = isinstance(last, ast.Call) and _leaf(last.func) == 'minimum' and len(last.args) == 2 \
-            and isinstance(last.args[0], ast.Name) and last.args[0].id == 'variance' \
+            and isinstance(last.args[0], ast.Name) and last.args[0].id == resv \
             and isinstance(last.args[1], ast.Subscript) and isinstance(last.args[1].slice, ast.Constant) \
             and last.args[1].slice.value == 0
         obs.check(ok_min, rule, q, f'{arm_name}: the result never exceeds the two-factor variance (min with variances[0])',
@@ -251,7 +287,7 @@ def clamp(ctx, obs, rule='CLAMP'):
         idx = set()
         for s in mx:
             for x in ast.walk(s.value):
-                if isinstance(x, ast.Subscript) and isinstance(x.value, ast.Name) and x.value.id == 'variances' \
+                if isinstance(x, ast.Subscript) and isinstance(x.value, ast.Name) and x.value.id == arrv \
                         and isinstance(x.slice, ast.Constant):
                     idx.add(x.slice.value)
         obs.check(idx == {1, 2}, rule, q, f'{arm_name}: the result never falls below either single-factor variance (max with '
@@ -262,7 +298,7 @@ def clamp(ctx, obs, rule='CLAMP'):
                       'minimum precedes maximum', '', where(prog, f, assigns[-1]))
         if arm_name == 'corrected' and mx:
             scaled = [x for s in mx for x in ast.walk(s.value) if isinstance(x, ast.BinOp) and isinstance(x.op, ast.Mult)
-                      and any(isinstance(y, ast.Subscript) and isinstance(y.value, ast.Name) and y.value.id == 'variances'
+                      and any(isinstance(y, ast.Subscript) and isinstance(y.value, ast.Name) and y.value.id == arrv
                               for y in ast.walk(x))]
             obs.check(len(scaled) >= 2, rule, q, 'corrected: the lower bounds are the n/(n-1)-corrected single-factor variances',
                       'single-factor variances are not scaled by n/(n-1) in the max', '', where(prog, f, mx[0]))
@@ -337,9 +373,9 @@ def correct_1d(ctx, obs, rule='UNIFORM'):
     f = prog.func(q)
     ok = False
     for n in ast.walk(f.node):
-        if isinstance(n, ast.BinOp) and isinstance(n.op, ast.Div) and isinstance(n.left, ast.Name) and n.left.id == 'n' \
+        if isinstance(n, ast.BinOp) and isinstance(n.op, ast.Div) and isinstance(n.left, ast.Name) \
                 and isinstance(n.right, ast.BinOp) and isinstance(n.right.op, ast.Sub) and isinstance(n.right.left, ast.Name) \
-                and n.right.left.id == 'n' and isinstance(n.right.right, ast.Constant) and n.right.right.value == 1:
+                and n.right.left.id == n.left.id and isinstance(n.right.right, ast.Constant) and n.right.right.value == 1:
             ok = True
     obs.check(ok, rule, q, 'the documented factor n / (n - 1) is applied', 'no n / (n - 1) factor', '', where(prog, f, f.node))
     mn = [c for c in ast.walk(f.node) if isinstance(c, ast.Call) and _leaf(c.func) == 'min']
